@@ -112,7 +112,7 @@ func (pcounter *LogProcessCounterSet) SelectMetricKeySet(record *LogRecord) *Log
 
 	tempMergedKey := pcounter.mergeKeyBuffer
 	for _, tkey := range tempKeys {
-		tempMergedKey = append(tempMergedKey, tkey...)
+		tempMergedKey = util.AppendKeyPart(tempMergedKey, tkey)
 	}
 	pcounter.mergeKeyBuffer = tempMergedKey[:0]
 
